@@ -12,7 +12,7 @@ from dataclasses import dataclass, field
 import z3
 
 from . import loader, contract as C
-from .values import (Sym, SV, SList, SSet, SOpt, FuncRef, ModuleRef, ClassRef, Opaque, Unsupported, TInt, TBool, TStr,
+from .values import (Sym, SV, TBV, SList, SSet, SOpt, FuncRef, ModuleRef, ClassRef, Opaque, Unsupported, TInt, TBool, TStr,
                      TNet, TNone, TObj, TList, TSet, TOpt, TTuple, TDict, Net, fresh, fresh_name, type_constraints, type_of,
                      to_term, wrap, sort_of, is_concrete, list_from_concrete, default_term)
 
@@ -365,6 +365,9 @@ class Engine:
                 return z3.Length(v.t) > 0
             if isinstance(v.ty, TObj) or v.ty is TNet:
                 return True
+            if v.ty is TBV:
+                return v.t != 0
+            raise Unsupported(f"truthiness of a value of type {v.ty}")
         if isinstance(v, SList):
             return v.n > 0
         if isinstance(v, SSet):
@@ -379,6 +382,8 @@ class Engine:
             return True
         if z3.is_expr(v):
             return v
+        if isinstance(v, Sym):
+            raise Unsupported(f"truthiness of {type(v).__name__}")
         return bool(v)
 
     def as_slist(self, v, ety=None):
